@@ -27,7 +27,7 @@ START, CONNECTING, CONNECTED, READY, DONE = PHASE
 
 
 # ------------------------------------------------------------------------------- helpers of run
-@contract('lomond.session.WebsocketSession._on_event', serves=['C07', 'C14', 'C15'])
+@contract('lomond.session.WebsocketSession._on_event', serves=['C07', 'C14', 'C15', 'C18'])
 class OnEvent(Contract):
     """ready -> timers initialised and _ready set; ping and auto_pong -> exactly one Pong with the
     ping's payload is attempted (dropped silently if the connection is closing/closed/failed);
